@@ -19,7 +19,13 @@ import (
 	"time"
 )
 
-const verifDir = "/verif"
+// verifDir is /verif; background runs from a snapshot (vp run) point VERIF_DIR at the snapshot.
+var verifDir = func() string {
+	if d := os.Getenv("VERIF_DIR"); d != "" {
+		return d
+	}
+	return "/verif"
+}()
 
 func repoDir() string {
 	if r := os.Getenv("VERIF_REPO"); r != "" {
@@ -553,6 +559,11 @@ func run(id, tier string, replayFiles []string) int {
 		}
 		os.MkdirAll(evdir, 0755)
 		os.WriteFile(filepath.Join(evdir, id+".json"), b, 0644)
+		if tier == "thorough" && len(violations) == 0 && len(broken) == 0 {
+			// the last complete thorough run is kept beside the file that every run rewrites
+			os.MkdirAll(filepath.Join(evdir, "thorough"), 0755)
+			os.WriteFile(filepath.Join(evdir, "thorough", id+".json"), b, 0644)
+		}
 	}
 
 	if len(violations) > 0 {
